@@ -280,9 +280,15 @@ class Ref:
         self.aggregated = False
         self.filtered = False
         self.history: list[str] = []
+        # what the running SELECT must contain (used by the compiler exploration, pipesim): predicate tags in WHERE / HAVING,
+        # GROUP BY keys, ORDER BY keys (highest priority first), LIMIT / OFFSET; closed segments (subqueries) are kept
+        self.seg = {"where": [], "having": [], "group": None, "order": [], "limit": None, "offset": None}
+        self.closed: list = []
 
     def copy(self):
         r = Ref([])
+        r.seg = {k: (list(v) if isinstance(v, list) else v) for k, v in self.seg.items()}
+        r.closed = list(self.closed)
         r.cols = dict(self.cols)
         r.visible = list(self.visible)
         r.grouping = list(self.grouping)
@@ -298,6 +304,8 @@ class Ref:
         self.limited = self.aggregated = self.filtered = False
         for c in list(self.cols.values()):
             self.cols[c.uid] = RCol(c.uid, c.name, EW, False, None)
+        self.closed.append(dict(self.seg, select=None))
+        self.seg = {"where": [], "having": [], "group": None, "order": [], "limit": None, "offset": None}
 
 
 BENIGN = {"mut_ew", "mut_over", "filter", "select", "rename", "arrange", "group_by", "group_by_add", "ungroup"}
@@ -345,7 +353,7 @@ class Sim:
             return _first_visible(r, lambda c: c.uid not in r.grouping) is not None
         if kind in ("ungroup",):
             return bool(r.grouping)
-        if kind in ("slice", "slice0") or kind.startswith(("join", "union")):
+        if kind in ("slice", "slice0", "slice2") or kind.startswith(("join", "union")):
             return not r.grouping  # the verbs reject grouped tables (C14)
         return bool(r.visible)
 
@@ -397,8 +405,11 @@ class Sim:
         if kind == "filter":
             node = w.obj("Filter", child=child, predicates=[w.fn("gt", EW, col(a), w.lit(0))])
 
-            def effect(ref):
+            ptag = getattr(node.attrs["predicates"][0], "attrs", {}).get("_tag")
+
+            def effect(ref, _t=ptag):
                 ref.filtered = True
+                ref.seg["having" if ref.aggregated else "where"].append(_t)
 
             def hazard(ref, _refd=list(refd)):
                 if ref.limited:
@@ -408,9 +419,15 @@ class Sim:
                 return None
 
             return node, effect, hazard
-        if kind == "arrange":
-            node = w.obj("Arrange", child=child, order_by=[col(a)])
-            return node, (lambda ref: None), (lambda ref: "ORDER BY is evaluated before LIMIT" if ref.limited else None)
+        if kind in ("arrange", "arrange_last"):
+            if kind == "arrange_last":
+                a = r.cols[r.visible[-1]]
+            node = w.obj("Arrange", child=child, order_by=[w.order(col(a))] if hasattr(w, "order") else [col(a)])
+
+            def effect(ref, _u=a.uid):
+                ref.seg["order"] = [_u] + ref.seg["order"]  # the latest arrange has priority; repeated keys are dropped when rendered
+
+            return node, effect, (lambda ref: "ORDER BY is evaluated before LIMIT" if ref.limited else None)
         if kind == "select":
             keep = r.visible[:-1]
             node = w.obj("Select", child=child, select=[self.colobj(u) for u in keep])
@@ -464,6 +481,8 @@ class Sim:
                 keep = [u for u in ref.grouping]
                 ref.cols = {u: ref.cols[u] for u in keep} | {_uid: RCol(_uid, _name, AGG, False, None)}
                 ref.visible = keep + [_uid]
+                ref.seg["group"] = [u for u in keep if not ref.cols[u].const]  # constant keys are left out of GROUP BY
+                ref.seg["order"] = []
                 ref.grouping = []
                 ref.aggregated = True
 
@@ -479,11 +498,17 @@ class Sim:
                 return None
 
             return node, effect, hazard
-        if kind in ("slice", "slice0"):
-            node = w.obj("SliceHead", child=child, n=0 if kind == "slice0" else 3, offset=0)
+        if kind in ("slice", "slice0", "slice2"):
+            n_, k_ = (0, 0) if kind == "slice0" else (3, 1) if kind == "slice" else (2, 2)
+            node = w.obj("SliceHead", child=child, n=n_, offset=k_)
 
-            def effect(ref):
+            def effect(ref, _n=n_, _k=k_):
                 ref.limited = True
+                sg = ref.seg
+                if sg["limit"] is None:
+                    sg["limit"], sg["offset"] = _n, _k
+                else:  # rows [off, off + lim) of which rows [_k, _k + _n) are kept
+                    sg["limit"], sg["offset"] = max(0, min(sg["limit"] - _k, _n)), sg["offset"] + _k
 
             return node, effect, (lambda ref: None)
         if kind == "alias":
@@ -494,6 +519,9 @@ class Sim:
                 ref.cols = {_m[u]: RCol(_m[u], c.name, c.ft, c.const, None) for u, c in ref.cols.items()}
                 ref.visible = [_m[u] for u in ref.visible]
                 ref.grouping = [_m[u] for u in ref.grouping]
+                ref.seg["order"] = [_m.get(u, u) for u in ref.seg["order"]]
+                if ref.seg["group"] is not None:
+                    ref.seg["group"] = [_m.get(u, u) for u in ref.seg["group"]]
 
             return node, effect, (lambda ref: None)
         raise AnalysisError(f"cachesim: unknown action {kind}")
